@@ -20,7 +20,7 @@ from .isoc import PKG
 from cardutil.cli import print_exception_details
 
 FAULTS = ('truncated-record', 'oversized-length', 'undecodable-mti', 'unknown-bit', 'bad-field-length', 'bad-typed-value',
-          'bad-pds', 'bad-icc', 'short-message')
+          'bad-pds', 'bad-icc', 'short-message', 'short-message-empty-bitmap', 'bare-mti')
 
 
 def owner(clause):
@@ -59,6 +59,11 @@ def inject(rec, kind, enc, r):
         x = x[:q + 2] + x[q + 10:]
     elif kind == 'short-message':
         x = x[:11]
+    elif kind == 'short-message-empty-bitmap':
+        # numeric MTI followed by a partial bitmap without any element bit (4..19 bytes in all)
+        x = x[:4] + bytes(r.choice((1, 4, 8, 12, 15)))
+    elif kind == 'bare-mti':
+        x = x[:4]
     return bytes(x)
 
 
